@@ -1,0 +1,69 @@
+//go:build verif
+
+package v0
+
+// Contracts for the deductive checks in /verif (read by /verif/govc; comment-only, no code).
+
+//@ import types github.com/tendermint/tendermint/types
+//@ import sm github.com/tendermint/tendermint/state
+//@ import store github.com/tendermint/tendermint/store
+//@ import p2p github.com/tendermint/tendermint/p2p
+//@ import log github.com/tendermint/tendermint/libs/log
+//@ import service github.com/tendermint/tendermint/libs/service
+
+// ASSUMED frames: pool bookkeeping, the switch, peers and the consensus reactor do not modify blocks, commits, part
+// sets or validator sets (nothing of package types), nor anything of package state.
+//@ func BlockPool.GetStatus
+//@   trusted
+//@   assigns except(types, sm)
+//@ func BlockPool.IsCaughtUp
+//@   trusted
+//@   assigns except(types, sm)
+//@ func BlockPool.MaxPeerHeight
+//@   trusted
+//@   assigns except(types, sm)
+//@ func BlockPool.RedoRequest
+//@   trusted
+//@   assigns except(types, sm)
+//@ func BlockPool.PopRequest
+//@   trusted
+//@   assigns except(types, sm)
+// Blocks enter the pool only through Receive, after types.BlockFromProto validated them (ValidateBasic).
+//@ func BlockPool.PeekTwoBlocks
+//@   trusted
+//@   assigns except(types, sm)
+//@   ensures basic1: result0 != nil ==> (result0.LastCommit != nil && result0.Header.Height >= 1)
+//@   ensures basic2: result1 != nil ==> (result1.LastCommit != nil && result1.Header.Height >= 1)
+//@ extern service.BaseService.Stop
+//@   assigns except(types, sm)
+//@ extern service.BaseService.Quit
+//@   assigns nothing
+//@ extern p2p.Switch.NumPeers
+//@   assigns except(types, sm)
+//@ extern p2p.Switch.Peers
+//@   assigns nothing
+//@ extern p2p.Switch.Reactor
+//@   assigns nothing
+//@ extern p2p.Switch.StopPeerForError
+//@   assigns except(types, sm)
+//@ extern p2p.IPeerSet.Get
+//@   assigns nothing
+//@ extern log.Logger.Debug
+//@   assigns nothing
+//@ extern log.Logger.Info
+//@   assigns nothing
+//@ extern log.Logger.Error
+//@   assigns nothing
+//@ extern consensusReactor.SwitchToConsensus
+//@   assigns except(types, sm)
+
+// Block sync (v0): a block reaches the store and the application only after VerifyCommit - every signature - accepted
+// the next block's LastCommit for exactly this block's hash and part-set header at its height under the validator set
+// of the node's OWN state, and ValidateBlock accepted the block against that state.
+//@ func BlockchainReactor.poolRoutine
+//@   requires wf: bcR.initialState.Validators != nil && wfPowers(bcR.initialState.Validators) && wfCached(bcR.initialState.Validators)
+//@   loop 1 invariant wf: state.Validators != nil && wfPowers(state.Validators) && wfCached(state.Validators)
+//@   atcall BlockStore.SaveBlock committed: commitVerified(state.Validators, chainID, types.Block.Hash(arg1), arg2.total, arg2.hash, arg1.Header.Height, arg3)
+//@   atcall BlockStore.SaveBlock validated: blockValidated(arg1, state.Validators, state.LastBlockHeight)
+//@   atcall BlockStore.SaveBlock pair: arg1 == first && arg3 == second.LastCommit
+//@   atcall BlockExecutor.ApplyBlock same: arg3 == first && arg2.Hash == types.Block.Hash(first) && commitVerified(arg1.Validators, chainID, arg2.Hash, arg2.PartSetHeader.Total, arg2.PartSetHeader.Hash, first.Header.Height, second.LastCommit)
